@@ -6,7 +6,7 @@ CONSTANTS
   MaxDepth = 2
   MaxNodes = 3
   Kinds = {"mod", "pkg", "pkga", "ns", "both", "modns"}
-  Shapes = {"one", "onep", "two", "twop", "nestafter", "nestbefore"}
+  Shapes = {"one", "onep", "two", "twop", "nestafter", "nestbefore", "rev"}
   MaxLevel = 3
   MaxFromPath = 1
   EmitMod = 1
